@@ -88,7 +88,8 @@ class C10History:
             # configure again over the existing build directory with another
             # command line: from now on that is the configuration every
             # later run (and the uninterrupted reference) is about
-            extra = how[len('reconfigure:'):].split(' ')
+            extra = how[len('reconfigure:'):].replace(
+                '@W@', sim.world.root).split(' ')
             base = [a for a in sim.proj.conf_args
                     if not any(a.startswith(e.split('=')[0]) for e in extra)]
             old_args = list(sim.proj.conf_args)
@@ -135,8 +136,7 @@ class C10History:
             self.fired = fired[0] if fired else None
             if fault and fault.get('persist') and self.fired:
                 self.fired['persist'] = True
-            self.trace.append(['victim',
-                               how.replace(sim.world.root, '$W'), r.status,
+            self.trace.append(['victim', how, r.status,
                                [i.get('outcome') for i in r.inv],
                                self.fired and self.fired['event']])
             if self.fired:
@@ -274,7 +274,29 @@ def _judge_reconfigured(self, how, mine, idx):
         sim.proj.conf_args[:] = rc['old']
         self.reconf = None
         return True
-    # neither: judged like every other attempt, against the new configuration
+    # neither.  If every file is what one of the two configurations writes,
+    # but not all of the same one, the attempt succeeded over a mixture
+    if ok_new and ok_old:
+        names = sorted(set(mine) | set(ref_new) | set(ref_old))
+        which = {n: ('new' if mine.get(n) == ref_new.get(n) else
+                     'old' if mine.get(n) == ref_old.get(n) else None)
+                 for n in names}
+        if None not in which.values() and \
+           {'old', 'new'} <= set(which.values()):
+            self.violations.append(Violation(
+                PROP, 'success-implies-fresh',
+                'attempt #{} `{}` exits 0 over a mixture of two '
+                'configurations: {}'.format(
+                    self.attempts, how,
+                    ', '.join('{}={}'.format(n, w_)
+                              for n, w_ in sorted(which.items())
+                              if mine.get(n) != ref_new.get(n) or
+                              mine.get(n) != ref_old.get(n))),
+                self.feats({'attempt=' + how, 'victim=reconfigure',
+                            'mixed-old-and-new-configuration'}), idx))
+            return True
+    # otherwise judged like every other attempt, against the new
+    # configuration
     return False
 
 
@@ -429,8 +451,8 @@ def run_case(seed, root, params=None):
             sim.apply_edit(e)
         how = 'configure' if victim == 'first-configure' else victim
         if victim == 'reconfigure':
-            how = 'reconfigure:' + rng.choice(RECONF_ARGS).replace(
-                '@W@', w.root)
+            # ('@W@' = this world's root, substituted when the run starts)
+            how = 'reconfigure:' + rng.choice(RECONF_ARGS)
         n_follow = rng.randint(1, 2)
         follow_kinds = ['backend', 'backend', 'backend', 'lazy', 'regenerate']
         followups = [['attempt', rng.choice(follow_kinds)]
@@ -541,6 +563,12 @@ def run_case(seed, root, params=None):
         shutil.rmtree(saved, ignore_errors=True)
         if not os.environ.get('BFGSIM_KEEP'):
             w.destroy()
+    # the recorded project carries the original command line (the victim's
+    # own arguments are part of the history)
+    try:
+        proj.conf_args[:] = conf0
+    except NameError:
+        pass
     return {'proj': proj, 'cfg': cfg, 'results': results, 'stats': stats,
             'victim': victim, 'trigger': label, 'script_mode': script_mode,
             'post_edits': bool(post_edits)}
